@@ -111,7 +111,57 @@ def run(name, mk, mode, keep):
     settle(before, 2.0)
 
 
+# ---- the async -> sync bridge: a sync consumer of an async pipeline (SyncIter) stops early; the upstream ASYNC stages' helper threads must end too
+async def asource(closed):
+    try:
+        k = 0
+        while True:
+            yield k
+            k += 1
+    finally:
+        closed.set()
+
+
+def run_bridge(label, mk, n_take):
+    from mpservice.streamer._streamer_async import SyncIter
+    before = set(threading.enumerate())
+    closed = threading.Event()
+    it = iter(SyncIter(mk(asource(closed))))
+    got = [next(it) for _ in range(n_take)]
+    it.close()
+    del it
+    gc.collect()
+    left = settle(before)
+    if left:
+        fails.append(f'async bridge {label} / early close after {n_take}: helper threads still alive after the iterator was closed: {[t.name for t in left]}')
+    elif not closed.is_set():
+        fails.append(f'async bridge {label} / early close after {n_take}: the async source was never finalized')
+    if got != list(range(n_take)):
+        fails.append(f'async bridge {label}: wrong elements {got}')
+
+
+def bridges():
+    from mpservice.streamer._streamer_async import AsyncStream
+
+    async def aident(x):
+        return x
+    return {
+        'source': lambda src: AsyncStream(src),
+        'buffer(1)': lambda src: AsyncStream(src).buffer(1),
+        'buffer(4)': lambda src: AsyncStream(src).buffer(4),
+        'parmap(sync func)': lambda src: AsyncStream(src).parmap(ident, concurrency=2, executor='thread'),
+        'parmap(async func)': lambda src: AsyncStream(src).parmap(aident, concurrency=2),
+        'buffer.parmap.buffer': lambda src: AsyncStream(src).buffer(2).parmap(ident, concurrency=2, executor='thread').buffer(2),
+    }
+
+
 if __name__ == '__main__':
+    for label, mk in bridges().items():
+        for n_take in (1, 4):
+            try:
+                run_bridge(label, mk, n_take)
+            except BaseException as e:      # noqa: BLE001
+                fails.append(f'async bridge {label} / {n_take}: unexpected {type(e).__name__}: {e}')
     for name, mk in PIPELINES.items():
         for mode in ('exhaust', 'early close', 'consumer fails', 'function fails', 'preprocessor fails', 'preprocessor fails, exceptions returned, early close'):
             for keep in (True, False):
